@@ -36,14 +36,18 @@ def is_wellformed_score(x):
     return len(r) == 3 and r[0] in "0123456789" and r[1] == "." and r[2] in "0123456789"
 
 
-def record(ver, o):
-    """Full observation record of an object through its public accessors (no JSON)."""
-    r = {"scores": o.scores(), "severities": o.severities(), "clean": o.clean_vector(), "rh": o.rh_vector()}
+def record(ver, o, reverse=False):
+    """Full observation record of an object through its public accessors (no JSON).
+    reverse=True reads the accessors in the opposite order (a pure accessor cannot tell)."""
+    acc = [("scores", o.scores), ("severities", o.severities), ("clean", o.clean_vector), ("rh", o.rh_vector)]
     if ver != "2":
-        r["clean_noprefix"] = o.clean_vector(output_prefix=False)
+        acc.append(("clean_noprefix", lambda: o.clean_vector(output_prefix=False)))
     if ver in ("2", "3"):
-        r["temporal_vector"] = o.temporal_vector()
-        r["environmental_vector"] = o.environmental_vector()
+        acc.append(("temporal_vector", o.temporal_vector))
+        acc.append(("environmental_vector", o.environmental_vector))
+    r = {}
+    for k, f in (reversed(acc) if reverse else acc):
+        r[k] = f()
     return r
 
 
